@@ -464,6 +464,6 @@ pub fn dispatch(cmd: &str, req: &Value) -> R<Value> {
         "cfgedit" => cfgedit(req),
         "pagedmem" => pagedmem(req),
         "backing" => backing(req),
-        _ => Err(format!("unknown cmd {}", cmd)),
+        _ => crate::cmds4::dispatch(cmd, req),
     }
 }
